@@ -54,6 +54,8 @@ def is_pure(e) -> bool:
         return isinstance(e.func, ast.Name) and e.func.id in PURE_CALLS and not e.keywords and all(is_pure(a) for a in e.args)
     if isinstance(e, ast.Tuple):
         return all(is_pure(x) for x in e.elts)
+    if isinstance(e, ast.Lambda):
+        return not e.args.defaults and not e.args.kw_defaults  # making a closure evaluates nothing (its body runs when it is called)
     return False
 
 
@@ -885,9 +887,12 @@ def _expand_call(st, call, h, receiver, caller_locals):
     if binding is None:
         return None
     body = _dc(_helper_body(h))
-    if not body or any(isinstance(n, (ast.Yield, ast.YieldFrom, ast.Global, ast.Nonlocal, ast.FunctionDef, ast.While, ast.Try, ast.With))
+    if not body or any(isinstance(n, (ast.Yield, ast.YieldFrom, ast.Global, ast.Nonlocal, ast.FunctionDef))
                        for b in body for n in ast.walk(b)):
         return None
+    has_with = any(isinstance(n, (ast.With, ast.Try, ast.While)) for b in body for n in ast.walk(b))
+    if has_with and any(isinstance(r, ast.Return) for b in body for n in ast.walk(b) if isinstance(n, (ast.With, ast.Try, ast.While)) for r in ast.walk(n)):
+        return None  # (a `with` / `try` block is hoisted whole; one that is left by a return is not)
     _COUNTER[0] += 1
     tag = f"__h{_COUNTER[0]}"
     stores = {n.id for b in body for n in ast.walk(b) if isinstance(n, ast.Name) and isinstance(n.ctx, (ast.Store, ast.Del))}
@@ -928,9 +933,24 @@ def _expand_call(st, call, h, receiver, caller_locals):
             if pos is None or any(isinstance(n, ast.Call) and n is not call and not is_pure(n) for n in order[:pos]
                                   if not any(n is a for a in ast.walk(call))):
                 return None
+        # `X = helper(..)` whose helper ends in `return R` (a local of its own): the helper's R *is* the caller's X -- rename instead of
+        # leaving `X = R__h` behind (X must not be an argument of the call: the body would see it change under its feet)
+        rv = body[-1].value
+        if isinstance(st, ast.Assign) and st.value is call and len(st.targets) == 1 and isinstance(st.targets[0], ast.Name) \
+                and isinstance(rv, ast.Name) and rv.id in mapping.values() and prefix \
+                and not any(isinstance(x, ast.Name) and x.id == st.targets[0].id for a_ in list(call.args) + [k.value for k in call.keywords] for x in ast.walk(a_)) \
+                and not any(isinstance(x, ast.Name) and x.id == st.targets[0].id for p_ in pre for x in ast.walk(p_)):
+            X, R = st.targets[0].id, rv.id
+            for b_ in prefix:
+                for x in ast.walk(b_):
+                    if isinstance(x, ast.Name) and x.id == R:
+                        x.id = X
+            return prefix
         new_st = _ReplaceNode(call, body[-1].value).visit(st)
         return prefix + [new_st]
     # shape B
+    if has_with:
+        return None
     try:
         if isinstance(st, ast.Assign) and st.value is call:
             make = lambda v: [ast.copy_location(ast.Assign(targets=_dc(st.targets), value=v, lineno=st.lineno), st)]
@@ -1052,6 +1072,8 @@ def inline_helpers(fn: ast.FunctionDef, resolve=None):
         used = any(isinstance(n, ast.Name) and n.id == name and isinstance(n.ctx, ast.Load) for s in f.body if s is not holder for n in ast.walk(s))
         if not used and holder in f.body:
             f.body.remove(holder)
+    _beta_reduce(f)  # a callable argument that was a lambda is now applied where the helper called it
+    _records_to_locals(f)  # `r = helper(...)` has become `r = _Rec(...)`: dissolve a record that is only read field by field
     _split_tuple_assignments(f)  # `a, b = helper(...)` has become `a, b = (a_h, b_h)`
     ast.fix_missing_locations(f)
     _renumber(f)
@@ -1786,6 +1808,280 @@ def _enumerate_slice_to_range(tree):
     return n
 
 
+_NT_TABLE = {}  # namedtuple types defined at module level anywhere in the package: name -> field names
+
+
+def _collect_namedtuples(tree):
+    for st in getattr(tree, "body", []):
+        if isinstance(st, ast.Assign) and len(st.targets) == 1 and isinstance(st.targets[0], ast.Name) and isinstance(st.value, ast.Call) \
+                and ast.unparse(st.value.func) in ("namedtuple", "collections.namedtuple") and len(st.value.args) == 2 and not st.value.keywords:
+            f = st.value.args[1]
+            fields = None
+            if isinstance(f, ast.Constant) and isinstance(f.value, str):
+                fields = f.value.replace(",", " ").split()
+            elif isinstance(f, (ast.List, ast.Tuple)) and all(isinstance(e, ast.Constant) and isinstance(e.value, str) for e in f.elts):
+                fields = [e.value for e in f.elts]
+            if fields:
+                _NT_TABLE[st.targets[0].id] = fields
+
+
+def _records_to_locals(fn):
+    """`r = _Rec(a, b, c)` (a namedtuple type of the package) whose every use is a field read `r.f`: the record is dissolved
+    into one local per field (`r__f = ...`, in the order the arguments are written), `r = _Rec(*E)` into `r__all = E` with
+    `r.f` read as `r__all[k]`.  A record that is passed on, indexed, unpacked or re-bound is left alone."""
+    n = 0
+    assigns = {}
+    for st in ast.walk(fn):
+        if isinstance(st, ast.Assign) and len(st.targets) == 1 and isinstance(st.targets[0], ast.Name):
+            assigns.setdefault(st.targets[0].id, []).append(st)
+    for name, sts in assigns.items():
+        if len(sts) != 1:
+            continue
+        st = sts[0]
+        v = st.value
+        if not (isinstance(v, ast.Call) and isinstance(v.func, ast.Name) and v.func.id in _NT_TABLE):
+            continue
+        fields = _NT_TABLE[v.func.id]
+        uses = [x for x in ast.walk(fn) if isinstance(x, ast.Name) and x.id == name and isinstance(x.ctx, ast.Load)]
+        attrs = [x for x in ast.walk(fn) if isinstance(x, ast.Attribute) and isinstance(x.value, ast.Name) and x.value.id == name
+                 and isinstance(x.ctx, ast.Load) and x.attr in fields]
+        stores = [x for x in ast.walk(fn) if isinstance(x, ast.Name) and x.id == name and isinstance(x.ctx, (ast.Store, ast.Del))]
+        if len(stores) != 1 or len(uses) != len(attrs) or not uses:
+            continue
+        star = len(v.args) == 1 and isinstance(v.args[0], ast.Starred) and not v.keywords
+        if star:
+            new = [ast.copy_location(ast.Assign(targets=[ast.Name(id=f"{name}__all", ctx=ast.Store())], value=v.args[0].value, lineno=st.lineno), st)]
+            sub = {f: ast.Subscript(value=ast.Name(id=f"{name}__all", ctx=ast.Load()), slice=ast.Constant(value=k), ctx=ast.Load())
+                   for k, f in enumerate(fields)}
+        else:
+            if any(isinstance(a, ast.Starred) for a in v.args) or any(k.arg is None for k in v.keywords):
+                continue
+            bound = list(zip(fields, v.args)) + [(k.arg, k.value) for k in v.keywords]
+            if sorted(f for f, _ in bound) != sorted(fields):
+                continue
+            new = [ast.copy_location(ast.Assign(targets=[ast.Name(id=f"{name}__{f}", ctx=ast.Store())], value=val, lineno=st.lineno), st)
+                   for f, val in bound]
+            sub = {f: ast.Name(id=f"{name}__{f}", ctx=ast.Load()) for f in fields}
+        placed = False
+        for block in _blocks(fn):
+            if any(b is st for b in block):
+                i = next(k for k, b in enumerate(block) if b is st)
+                block[i:i + 1] = new
+                placed = True
+                break
+        if not placed:
+            continue
+
+        class _R(ast.NodeTransformer):
+            def visit_Attribute(self, nd):
+                self.generic_visit(nd)
+                if isinstance(nd.value, ast.Name) and nd.value.id == name and isinstance(nd.ctx, ast.Load) and nd.attr in sub:
+                    return ast.copy_location(_dc(sub[nd.attr]), nd)
+                return nd
+        _R().visit(fn)
+        n += 1
+    return n
+
+
+def _try_attribute_default(tree):
+    """try: v = obj.attr / except AttributeError: v = default   ->   v = getattr(obj, "attr", default)   (obj a plain name,
+    default pure, nothing else in either block)"""
+    n = 0
+    for block in _blocks(tree):
+        for i, st in enumerate(block):
+            if not (isinstance(st, ast.Try) and len(st.body) == 1 and len(st.handlers) == 1 and not st.orelse and not st.finalbody):
+                continue
+            b, h = st.body[0], st.handlers[0]
+            if not (isinstance(b, ast.Assign) and len(b.targets) == 1 and isinstance(b.targets[0], ast.Name) and isinstance(b.value, ast.Attribute)
+                    and isinstance(b.value.value, ast.Name) and h.name is None and isinstance(h.type, ast.Name) and h.type.id == "AttributeError"
+                    and len(h.body) == 1 and isinstance(h.body[0], ast.Assign) and len(h.body[0].targets) == 1
+                    and isinstance(h.body[0].targets[0], ast.Name) and h.body[0].targets[0].id == b.targets[0].id and is_pure(h.body[0].value)):
+                continue
+            call = ast.Call(func=ast.Name(id="getattr", ctx=ast.Load()), args=[b.value.value, ast.Constant(value=b.value.attr), h.body[0].value], keywords=[])
+            block[i] = ast.copy_location(ast.Assign(targets=b.targets, value=call, lineno=st.lineno), st)
+            n += 1
+    return n
+
+
+def _dict_zip_range(tree):
+    """dict(zip(map(f, S[lo:]), range(a, len(S) - k)))  with  (len(S) - k) - a == len(S) - lo   ->   {f(S[j]): j - lo + a for j in
+    range(lo, len(S))}   (also without map)"""
+    n = 0
+
+    class V(ast.NodeTransformer):
+        def visit_Call(self, c):
+            nonlocal n
+            self.generic_visit(c)
+            if not (isinstance(c.func, ast.Name) and c.func.id == "dict" and len(c.args) == 1 and not c.keywords and isinstance(c.args[0], ast.Call)
+                    and isinstance(c.args[0].func, ast.Name) and c.args[0].func.id == "zip" and len(c.args[0].args) == 2 and not c.args[0].keywords):
+                return c
+            keys, vals = c.args[0].args
+            f = None
+            if isinstance(keys, ast.Call) and isinstance(keys.func, ast.Name) and keys.func.id == "map" and len(keys.args) == 2 and is_pure(keys.args[0]):
+                f, keys = keys.args[0], keys.args[1]
+            if not (isinstance(keys, ast.Subscript) and isinstance(keys.slice, ast.Slice) and keys.slice.upper is None and keys.slice.step is None
+                    and isinstance(keys.value, (ast.Name, ast.Attribute)) and is_pure(keys.value)):
+                return c
+            lo = keys.slice.lower.value if isinstance(keys.slice.lower, ast.Constant) and isinstance(keys.slice.lower.value, int) else (0 if keys.slice.lower is None else None)
+            if lo is None or lo < 0:
+                return c
+            if not (isinstance(vals, ast.Call) and isinstance(vals.func, ast.Name) and vals.func.id == "range" and len(vals.args) == 2
+                    and isinstance(vals.args[0], ast.Constant) and isinstance(vals.args[0].value, int)):
+                return c
+            a, hi = vals.args[0].value, vals.args[1]
+            S_ = ast.unparse(keys.value)
+            k = None  # hi == len(S) - k
+            if ast.unparse(hi) == f"len({S_})":
+                k = 0
+            elif isinstance(hi, ast.BinOp) and isinstance(hi.op, (ast.Sub, ast.Add)) and ast.unparse(hi.left) == f"len({S_})" \
+                    and isinstance(hi.right, ast.Constant) and isinstance(hi.right.value, int):
+                k = hi.right.value if isinstance(hi.op, ast.Sub) else -hi.right.value
+            if k is None or -k - a != -lo:
+                return c
+            j = ast.Name(id="_jz", ctx=ast.Load())
+            elem = ast.Subscript(value=_dc(keys.value), slice=j, ctx=ast.Load())
+            key = ast.Call(func=_dc(f), args=[elem], keywords=[]) if f is not None else elem
+            shift = a - lo
+            val = j if shift == 0 else ast.BinOp(left=j, op=ast.Add() if shift > 0 else ast.Sub(), right=ast.Constant(value=abs(shift)))
+            gen = ast.comprehension(target=ast.Name(id="_jz", ctx=ast.Store()),
+                                    iter=ast.Call(func=ast.Name(id="range", ctx=ast.Load()),
+                                                  args=[ast.Constant(value=lo), ast.Call(func=ast.Name(id="len", ctx=ast.Load()), args=[_dc(keys.value)], keywords=[])],
+                                                  keywords=[]), ifs=[], is_async=0)
+            n += 1
+            return ast.copy_location(ast.DictComp(key=key, value=val, generators=[gen]), c)
+    V().visit(tree)
+    return n
+
+
+def _beta_reduce(tree):
+    """(lambda p, q: E)(a, b) -> E[p := a, q := b]  when the arguments are pure (or the parameter is read at most once)"""
+    n = 0
+
+    class V(ast.NodeTransformer):
+        def visit_Call(self, c):
+            nonlocal n
+            self.generic_visit(c)
+            f = c.func
+            if not (isinstance(f, ast.Lambda) and not c.keywords and not any(isinstance(a, ast.Starred) for a in c.args)):
+                return c
+            a = f.args
+            if a.vararg or a.kwarg or a.kwonlyargs or a.posonlyargs or a.defaults or len(a.args) != len(c.args):
+                return c
+            names = [x.arg for x in a.args]
+            reads = {nm: sum(1 for x in ast.walk(f.body) if isinstance(x, ast.Name) and x.id == nm) for nm in names}
+            if not all(is_pure(arg) or reads[nm] <= 1 for nm, arg in zip(names, c.args)):
+                return c
+            if any(isinstance(x, (ast.Lambda, ast.ListComp, ast.DictComp, ast.SetComp, ast.GeneratorExp)) for x in ast.walk(f.body)):
+                return c
+            sub = dict(zip(names, c.args))
+
+            class S_(ast.NodeTransformer):
+                def visit_Name(self, nd):
+                    return _dc(sub[nd.id]) if nd.id in sub and isinstance(nd.ctx, ast.Load) else nd
+            n += 1
+            return ast.copy_location(S_().visit(_dc(f.body)), c)
+    V().visit(tree)
+    return n
+
+
+def _list_map_to_comprehension(tree):
+    """list(map(F, X)) -> [F(e) for e in X]   (F a name, attribute, lambda or itemgetter(..) call; one iterable)"""
+    n = 0
+
+    class V(ast.NodeTransformer):
+        def visit_Call(self, c):
+            nonlocal n
+            self.generic_visit(c)
+            if isinstance(c.func, ast.Name) and c.func.id == "list" and len(c.args) == 1 and not c.keywords and isinstance(c.args[0], ast.Call) \
+                    and isinstance(c.args[0].func, ast.Name) and c.args[0].func.id == "map" and len(c.args[0].args) == 2 and not c.args[0].keywords:
+                F, X = c.args[0].args
+                if isinstance(F, (ast.Name, ast.Attribute, ast.Lambda)) or (isinstance(F, ast.Call) and ast.unparse(F.func) in ("itemgetter", "operator.itemgetter")):
+                    e = ast.Name(id="_em", ctx=ast.Load())
+                    n += 1
+                    return ast.copy_location(ast.ListComp(
+                        elt=ast.Call(func=F, args=[e], keywords=[]),
+                        generators=[ast.comprehension(target=ast.Name(id="_em", ctx=ast.Store()), iter=X, ifs=[], is_async=0)]), c)
+            return c
+    V().visit(tree)
+    return n
+
+
+def _debug_raise_to_assert(tree):
+    """if __debug__: if not C: raise AssertionError(msg)   ->   assert C, msg"""
+    n = 0
+    for block in _blocks(tree):
+        for i, st in enumerate(block):
+            if isinstance(st, ast.If) and isinstance(st.test, ast.Name) and st.test.id == "__debug__" and not st.orelse and len(st.body) == 1 \
+                    and isinstance(st.body[0], ast.If) and not st.body[0].orelse and len(st.body[0].body) == 1 and isinstance(st.body[0].body[0], ast.Raise):
+                inner = st.body[0]
+                r = inner.body[0]
+                exc = r.exc
+                if r.cause is None and isinstance(exc, ast.Call) and isinstance(exc.func, ast.Name) and exc.func.id == "AssertionError" \
+                        and len(exc.args) <= 1 and not exc.keywords:
+                    cond = inner.test.operand if isinstance(inner.test, ast.UnaryOp) and isinstance(inner.test.op, ast.Not) \
+                        else ast.UnaryOp(op=ast.Not(), operand=inner.test)
+                    block[i] = ast.copy_location(ast.Assert(test=cond, msg=exc.args[0] if exc.args else None), st)
+                    n += 1
+    return n
+
+
+def _callable_objects_to_lambdas(tree):
+    """a private module-level class whose only behaviour is `__init__(self, a, b): self.a = a; self.b = b` and
+    `__call__(self, x): return E` is a closure: `_Cls(p, q)` -> `lambda x: E[self.a := p, self.b := q]` (arguments pure)"""
+    table = {}
+    for st in getattr(tree, "body", []):
+        if not (isinstance(st, ast.ClassDef) and st.name.startswith("_") and not st.bases and not st.decorator_list):
+            continue
+        methods = {m.name: m for m in st.body if isinstance(m, ast.FunctionDef)}
+        others = [m for m in st.body if not isinstance(m, ast.FunctionDef)
+                  and not (isinstance(m, ast.Expr) and isinstance(m.value, ast.Constant))
+                  and not (isinstance(m, ast.Assign) and len(m.targets) == 1 and isinstance(m.targets[0], ast.Name) and m.targets[0].id == "__slots__")]
+        if set(methods) != {"__init__", "__call__"} or others:
+            continue
+        ini, cal = methods["__init__"], methods["__call__"]
+        ps = [a.arg for a in ini.args.args][1:]
+        body = [b for b in ini.body if not (isinstance(b, ast.Expr) and isinstance(b.value, ast.Constant))]
+        ok = not ini.args.defaults and not ini.args.kwonlyargs and not ini.args.vararg and not ini.args.kwarg and len(body) == len(ps) and all(
+            isinstance(b, ast.Assign) and len(b.targets) == 1 and isinstance(b.targets[0], ast.Attribute) and isinstance(b.targets[0].value, ast.Name)
+            and b.targets[0].value.id == ini.args.args[0].arg and isinstance(b.value, ast.Name) and b.value.id in ps for b in body)
+        cbody = [b for b in cal.body if not (isinstance(b, ast.Expr) and isinstance(b.value, ast.Constant))]
+        if not ok or len(cbody) != 1 or not isinstance(cbody[0], ast.Return) or cbody[0].value is None or cal.args.defaults or cal.args.kwonlyargs:
+            continue
+        attr_of = {b.targets[0].attr: b.value.id for b in body}
+        table[st.name] = (ps, attr_of, cal)
+    n = 0
+    if not table:
+        return 0
+
+    class V(ast.NodeTransformer):
+        def visit_Call(self, c):
+            nonlocal n
+            self.generic_visit(c)
+            if isinstance(c.func, ast.Name) and c.func.id in table and not c.keywords and all(is_pure(a) for a in c.args):
+                ps, attr_of, cal = table[c.func.id]
+                if len(c.args) != len(ps):
+                    return c
+                arg_of = dict(zip(ps, c.args))
+                selfn = cal.args.args[0].arg
+
+                class S_(ast.NodeTransformer):
+                    def visit_Attribute(self, nd):
+                        self.generic_visit(nd)
+                        if isinstance(nd.value, ast.Name) and nd.value.id == selfn and nd.attr in attr_of and isinstance(nd.ctx, ast.Load):
+                            return _dc(arg_of[attr_of[nd.attr]])
+                        return nd
+                body = S_().visit(_dc([b for b in cal.body if isinstance(b, ast.Return)][0].value))
+                if any(isinstance(x, ast.Name) and x.id == selfn for x in ast.walk(body)):
+                    return c
+                lam = ast.Lambda(args=ast.arguments(posonlyargs=[], args=[ast.arg(arg=a.arg) for a in cal.args.args[1:]], vararg=None, kwonlyargs=[],
+                                                    kw_defaults=[], kwarg=None, defaults=[]), body=body)
+                n += 1
+                return ast.copy_location(lam, c)
+            return c
+    V().visit(tree)
+    return n
+
+
 def _match_to_if(tree):
     """`match <pure subject>:` over constants / dotted names / or-patterns of them / a final wildcard, no guards, no captures, is
     the if / elif chain `subject == A`, `subject in [B, C]`, `else`.  Anything else (class, sequence, mapping patterns, guards,
@@ -2002,7 +2298,13 @@ def normalize_module(tree):
             init = next((m for m in nd.body if isinstance(m, ast.FunctionDef) and m.name == "__init__"), None)
             if init is not None:
                 repo_sigs[nd.name] = _sig_of(init)
+    _collect_namedtuples(tree)
     n_ann = _annassign_to_assign(tree)
+    n_lm = _list_map_to_comprehension(tree)
+    n_da = _debug_raise_to_assert(tree)
+    n_co = _callable_objects_to_lambdas(tree)
+    n_try = _try_attribute_default(tree)
+    n_dzr = _dict_zip_range(tree)
     n_star = _expand_double_star_locals(tree)
     n_cnt = _count_loops_to_while(tree)
     n_enum = _enumerate_slice_to_range(tree)
@@ -2012,6 +2314,13 @@ def normalize_module(tree):
                dict_zip_to_literal=_dict_zip_to_literal(tree))
     out["match_to_if"] = _match_to_if(tree)
     out["annassign"] = n_ann
+    out["list_map"] = n_lm
+    out["debug_raise_to_assert"] = n_da
+    out["callable_objects"] = n_co
+    out["beta_reduce"] = _beta_reduce(tree)
+    out["try_attribute_default"] = n_try
+    out["dict_zip_range"] = n_dzr
+    out["records_to_locals"] = sum(_records_to_locals(f_) for f_ in ast.walk(tree) if isinstance(f_, (ast.FunctionDef, ast.AsyncFunctionDef)))
     out["double_star_locals"] = n_star
     out["count_loops"] = n_cnt
     out["enumerate_slice"] = n_enum
